@@ -65,6 +65,18 @@ pub fn check_linear(c: &PairCase) -> CheckResult {
     Ok(CaseInfo::new(a.weight() >= 2 && b.weight() >= 2 && a != b).class(format!("a:{}", c.a.class)).class(format!("b:{}", c.b.class)).class_if(ab.is_zero(), "a==b"))
 }
 
+/// start `k` steps before a structured *target* state (preimage under T^k): guards that look at
+/// the freshly computed state are reached
+pub fn check_power_preimage(c: &PowerCase) -> CheckResult {
+    let ti = linear::model_inverse(c.ty).map_err(|e| Fail::new(format!("C07:not-bijective:{}", c.ty.name()), e))?;
+    let mut s = Bits::from_bytes(&c.s.bytes);
+    for _ in 0..c.k {
+        s = ti.apply(&s);
+    }
+    let n = c.ty.info().nbits;
+    check_power(&PowerCase { ty: c.ty, s: Seed { class: format!("pre:{}", c.s.class), bytes: s.to_bytes(n / 8) }, k: c.k + 1 })
+}
+
 pub fn check_power(c: &PowerCase) -> CheckResult {
     let name = c.ty.name();
     let m = linear::model(c.ty).map_err(inconcl)?;
@@ -205,6 +217,12 @@ pub fn def(ctx: &Ctx) -> PropDef {
             check_power,
         ));
         subs.push(PSub::boxed(
+            format!("preimage/{}", ty.name()),
+            t.pick(3000, 400_000) / if n >= 512 { 4 } else { 1 },
+            move || (gens::target_state(ty), 1u64..=6).prop_map(move |(s, k)| PowerCase { ty, s, k }).boxed(),
+            check_power_preimage,
+        ));
+        subs.push(PSub::boxed(
             format!("minpoly/{}", ty.name()),
             t.pick(10, 400),
             move || (gens::seed_for(ty, false), 0usize..512).prop_map(move |(s, tap)| MinPolyCase { ty, s, tap }).boxed(),
@@ -223,7 +241,7 @@ pub fn def(ctx: &Ctx) -> PropDef {
     }
     PropDef {
         id: "C07",
-        rule: "for each of the 15 linear generator types: T (the GF(2) matrix of one next call) is extracted by executing the real step on the n basis states; generated states (uniform, sparse, dense, special words, single byte) then check (i) linearity step(a^b) = step(a)^step(b) and agreement T·s = step(s), (ii) T^k·s = k real steps for generated k, (iii) Berlekamp-Massey on a generated state bit of the real 2n+8-step state sequence gives a degree-n minimal polynomial m with x^(2^n-1) = 1 and x^((2^n-1)/p) != 1 mod m for every prime p | 2^n-1, (iv) rank(T) = n, T·0 = 0, (v) cycle probes of 2^16 (thorough 2^24) real steps never return to the start nor reach zero; thorough adds the matrix-order route T^(2^n) = T, T^((2^n-1)/p) != I. Non-trivial = generated (non-basis) states of weight >= 2; distinct by hash of the case.".into(),
+        rule: "for each of the 15 linear generator types: T (the GF(2) matrix of one next call) is extracted by executing the real step on the n basis states; generated states (uniform, sparse, dense, special words, single byte) then check (i) linearity step(a^b) = step(a)^step(b) and agreement T·s = step(s), (ii) T^k·s = k real steps for generated k, also started k steps BEFORE structured target states (preimages under T^-k of states with zero / small / equal / complementary / negated / constant words), so that guards keyed on the freshly computed state are reached, (iii) Berlekamp-Massey on a generated state bit of the real 2n+8-step state sequence gives a degree-n minimal polynomial m with x^(2^n-1) = 1 and x^((2^n-1)/p) != 1 mod m for every prime p | 2^n-1, (iv) rank(T) = n, T·0 = 0, (v) cycle probes of 2^16 (thorough 2^24) real steps never return to the start nor reach zero; thorough adds the matrix-order route T^(2^n) = T, T^((2^n-1)/p) != I. Non-trivial = generated (non-basis) states of weight >= 2; distinct by hash of the case.".into(),
         explanation: Some("Running the code cannot observe a period of 2^64-1 .. 2^512-1. What the generated inputs decide is that the code's step IS the linear map T (basis images, BLR linearity relation on generated pairs, direct agreement on generated states). For T the statement is computed exactly: rank n makes it a bijection; a degree-n primitive minimal polynomial makes GF(2)[x]/(m) a field in which multiplication by x has order 2^n-1 and acts as a single cycle on the non-zero elements. The only unproved link is linearity outside the sampled states; the complete factorisation of 2^n-1 (Fermat numbers F0..F8, products verified at start-up; primality of the 13 factors checked at design time) is a stated assumption.".into()),
         assumptions: vec![
             "the step is GF(2)-linear outside the sampled states (sampled: BLR relation on generated pairs)".into(),
